@@ -10,6 +10,14 @@ B5 = ("bytes", 5)
 S5 = ("string", 5)
 ADDR = ("address",)
 METHOD_ID = 0xDEADBEEF
+# the 4-byte prefix of `abi_encode(..., method_id=M)`: a family (the all-zero selector is legal and FALSY in Python; single low /
+# high bytes; all ones), chosen per type so that every run uses every member
+METHOD_IDS = [0xDEADBEEF, 0x00000000, 0x000000FF, 0xFF000000, 0x80000000, 0xFFFFFFFF, 0x00000001]
+
+
+def method_id_for(t):
+    import zlib
+    return METHOD_IDS[zlib.crc32(repr(t).encode()) % len(METHOD_IDS)]
 
 
 def prelude(k):
@@ -30,6 +38,7 @@ def build_source(t):
     n1 = A.size_bound(t)
     n2 = A.size_bound(("tuple", (t, B5))) + 4
     indexed = t[0] in A.SCALARS
+    MID = "0x%08x" % method_id_for(t)
     src = d.text()
     src += f"""
 event E:
@@ -88,7 +97,7 @@ def enc1(x: {T}) -> Bytes[{n1}]:
 
 @external
 def enc2(x: {T}, b: Bytes[5]) -> Bytes[{n2}]:
-{P}    return abi_encode(x, b, method_id=0xdeadbeef)
+{P}    return abi_encode(x, b, method_id={MID})
 
 @external
 def ext(a: address, x: {T}):
@@ -108,7 +117,7 @@ def cerr(x: {T}, b: Bytes[5]):
 def evi(x: {T}):
 {P}    log EI(a=x, c=9)
 """
-    return src, {"n0": n0, "n1": n1, "n2": n2, "indexed": indexed}
+    return src, {"n0": n0, "n1": n1, "n2": n2, "indexed": indexed, "mid": method_id_for(t)}
 
 
 def coq_pack_expr(t, v, b5, addr, info):
@@ -117,7 +126,7 @@ def coq_pack_expr(t, v, b5, addr, info):
     ct, cv = A.coq_ty(t), A.coq_val(t, v)
     cb = f"(VBytes {A.coq_bytes(b5)})"
     ca = f"(VInt {hex(addr)})"
-    mid = A.coq_bytes(METHOD_ID.to_bytes(4, "big"))
+    mid = A.coq_bytes(info.get("mid", METHOD_ID).to_bytes(4, "big"))
     return (f"let t := {ct} in let v := {cv} in "
             f"let eA := enc (TTuple [t]) (VList [v]) in let eB := enc t v in "
             f"let eC := enc (TTuple [t; TBytes 5]) (VList [v; {cb}]) in "
